@@ -27,6 +27,13 @@ RULE = ("unit expressions are generated from structured item lists (prefix, tabl
         "across UnitEnvironment scopes (2-3 successive environments defining the same custom symbols with other magnitudes / "
         "dimensions / prefixes, conversions inside each judged against the definitions current in the table); 30% of the "
         "accepted conversions repeated with an uncertainty attached (same value required); "
+        "magnitudes also handed over as numpy arrays / numpy scalars of dtype float32, float16, int32, int64, float64 (20% of "
+        "the cases; the value is the number the container holds exactly); every same-dimension pair of tokens whose factors "
+        "differ by less than 1e-4 relative but are not equal (26 pairs incl. ly against [c]*yr_j), both directions and as "
+        "intermediate unit of a path; targets also named by a dimension vector (list) and a Dimensions object (= the product of "
+        "the base units); refused conversions whose multi-atom target fails on a later atom and conversions of another quantity "
+        "inside the Quantity histories; refused UnitEnvironment registrations (collision with a prefixed table symbol) followed "
+        "by conversions of that prefixed unit; the unit tables re-extracted at the end of the run and compared with the start; "
         "reciprocal pairs also with arrays holding exact zeros; the empty unit as target in every form; np.sin/cos/tan on "
         "rad, mrad, deg, arcmin, arcsec, bare numbers, powers of rad and other dimensions, np.arcsin/arccos/arctan on plain "
         "numbers, %, PR, ppth, rad, m; augmented assignments (*=, /=, +=, -=) inside the Quantity histories; units written "
@@ -39,6 +46,12 @@ ASSUMPTIONS = [
     "(longest table symbol that is a suffix, rest an admissible prefix - the parser is not consulted), it denotes the intended "
     "unit; the same unit may be written twice (km3/km, kg/s/s) and then stands for the summed exponent; numeric literals "
     "inside a target expression (BaseUnits drops them; C03) are not generated",
+    "a magnitude given as a numpy array or numpy scalar of any real dtype denotes the number it holds; Magnitude casts it to "
+    "float64, so the tolerance is the double-precision one (1e-12); values not representable in the dtype are not generated",
+    "nearly equal factors are still different factors: the 1e-12 tolerance applies to them as to any pair",
+    "an unknown symbol in a target expression (tokens no table symbol is a suffix of) is expected to be refused by C03's parser; "
+    "this check only requires that the quantity is unchanged after such a refusal and that later conversions are unaffected; "
+    "if the expression is accepted, that step is not judged",
     "a reciprocal conversion of an array is judged element-wise where x_i != 0 and its shape must be the input's; every "
     "accepted conversion must preserve the shape (scalar stays scalar, n elements stay n)",
     "the empty unit as target: value() is judged for BaseUnits() only (None, '' and {} are falsy arguments meaning 'no "
@@ -68,6 +81,7 @@ EXTRA_OBLIGATIONS = []
 
 EXPS = [(1, 1), (1, 1), (1, 1), (2, 1), (-1, 1), (3, 1), (1, 2), (-3, 2), (-2, 1), (2, 3)]
 SCALARS = [0.0, 1.0, -1.0, math.pi, -math.pi, 1e30, 1e-30, 2.5, -123456.789, 6.02e23, 1e-9]
+UNKNOWN_TOKENS = ["sec", "xyz", "qq", "foo3", "kxyz-1"]      # no table symbol is a suffix of these
 QUANTITY_FORMS = ("q1", "qm", "unitattr", "unitcall", "scaled-unit")     # "none" (None) only for the empty unit
 FLOAT_EXC = ("ZeroDivisionError", "OverflowError", "FloatingPointError")
 FLOAT_ERRORS = (ZeroDivisionError, OverflowError, FloatingPointError)
@@ -138,7 +152,7 @@ def replace_items(cat, rng, items, groups, sign=1):
     return out
 
 
-FORMS = ["str", "str", "str", "baseunits", "dict", "q1", "qm", "qm", "unitattr", "unitcall", "scaled-unit"]
+FORMS = ["str", "str", "str", "baseunits", "dict", "q1", "qm", "qm", "unitattr", "unitcall", "scaled-unit", "dimlist", "dimobj"]
 TARGET_MAGS = [2.0, 0.5, -3.0, 1e3, 10.0, 7.25]
 
 
@@ -146,16 +160,68 @@ def make_case(cat, rng, stream, x, iu, iv, render_rng=None, form=None):
     """`form` = the way the target unit v is named: a string, a BaseUnits object, a dict of
     exponents, a Quantity of magnitude 1 / another magnitude, a `Unit()` attribute, `Unit(v)`,
     or a scaled unit `tm*Unit(v)`."""
-    eu = U.render_items(iu, render_rng)
-    ev = U.render_items(iv, render_rng)
     if form is None:
         form = rng.choice(FORMS) if stream != "corpus" else "str"
+    if form in DIM_FORMS:
+        # a dimension vector names the product of the eight base units with these exponents
+        civ = canonical_expansion(cat, cat.dims_of_items(iv))
+        if civ:
+            iv, render_rng = civ, None
+        else:
+            form = "str"
+    eu = U.render_items(iu, render_rng)
+    ev = U.render_items(iv, render_rng)
     tm = None
     if form in ("qm", "scaled-unit"):
         tm = rng.choice(TARGET_MAGS)
     elif form in ("q1", "unitattr", "unitcall"):
         tm = 1.0
-    return {"stream": stream, "x": x, "iu": iu, "iv": iv, "eu": eu, "ev": ev, "form": form, "tm": tm}
+    case = {"stream": stream, "x": x, "iu": iu, "iv": iv, "eu": eu, "ev": ev, "form": form, "tm": tm}
+    if stream != "corpus" and rng.random() < 0.2:
+        with_container(case, rng)
+    return case
+
+
+DIM_FORMS = ("dimlist", "dimobj")
+CONTAINERS = ["float32", "float32", "float16", "int32", "int64", "float64", "scalar-float32", "scalar-int64", "scalar-float64"]
+
+
+def canonical_expansion(cat, dims):
+    return [(None, name, (e.numerator, e.denominator)) for name, e in zip(cat.base, dims) if e != 0]
+
+
+def with_container(case, rng):
+    """the magnitude handed over as a numpy array / numpy scalar of another dtype: the value is the number the
+    container holds exactly, the conversion is carried out in double precision like for any other magnitude"""
+    import numpy as np
+    kind = rng.choice(CONTAINERS)
+    scalar = kind.startswith("scalar-")
+    dt = np.dtype(kind.replace("scalar-", ""))
+    xs = U.as_list(case["x"])
+    if scalar != (not isinstance(case["x"], list)):
+        return                  # scalars stay scalars, arrays stay arrays
+    with np.errstate(all="ignore"):
+        if dt.kind == "i":
+            if any(abs(v) >= 2 ** 31 or v != v for v in xs):
+                return
+            held = [float(int(round(v))) for v in xs]
+        else:
+            held = [float(dt.type(v)) for v in xs]
+            if any((h in (float("inf"), float("-inf"))) or (h == 0) != (v == 0) for h, v in zip(held, xs)):
+                return          # not representable in this dtype
+    case["x"] = held[0] if scalar else held
+    case["container"] = kind
+
+
+def contained(case, x):
+    import numpy as np
+    kind = case.get("container")
+    if not kind:
+        return list(x) if isinstance(x, list) else x
+    dt = np.dtype(kind.replace("scalar-", ""))
+    if kind.startswith("scalar-"):
+        return dt.type(x)
+    return np.array(x, dtype=dt)
 
 
 def gen_cases(ctx, cat, scale):
@@ -311,6 +377,11 @@ def make_target(cat, case):
         if form == "baseunits":
             return BaseUnits()
         return Quantity(case["tm"])        # q1 / qm
+    if form in DIM_FORMS:
+        from scinumtools.units.dimensions import Dimensions
+        vec = [(n if d == 1 else (n, d)) for n, d in
+               ((e.numerator, e.denominator) for e in cat.dims_of_items(case["iv"]))]
+        return vec if form == "dimlist" else Dimensions.from_list(vec)
     if form == "str":
         return ev
     if form == "baseunits":
@@ -338,7 +409,7 @@ def build_source(case, **kw):
     def xx(v):
         return list(v) if isinstance(v, list) else v
     if not r:
-        return Quantity(xx(x), case["eu"], **kw)
+        return Quantity(contained(case, x), case["eu"], **kw)
     k = r["kind"]
     if k == "parse":
         return Quantity(xx(x), r["expr"])
@@ -411,12 +482,14 @@ def judge(ctx, cat, case, imp, res, report=True):
     found = []
     x = case["x"]
     eu = case.get("src") or case["eu"]
+    if case.get("container"):
+        eu = "%s [magnitude given as numpy %s]" % (eu, case["container"])
     form = case.get("form", "str")
     qform = form in QUANTITY_FORMS
     has_value = imp["value"] != "n/a"
     replay = {"stream": case["stream"], "x": x, "u": case["eu"], "src": case.get("src"), "recipe": case.get("recipe"),
               "env": case.get("env"), "v": case["ev"], "iu": case["iu"], "iv": case["iv"], "form": form, "tm": case.get("tm"),
-              "empty_target": case.get("empty_target")}
+              "empty_target": case.get("empty_target"), "container": case.get("container")}
     frac = any(d != 1 for _, _, (n, d) in case["iu"] + case["iv"])
     rtol = 1e-9 if frac else 1e-12
     xs = U.as_list(x)
@@ -454,6 +527,8 @@ def judge(ctx, cat, case, imp, res, report=True):
     float_exc = (not numeric_ok) and (imp.get("value_exc") in FLOAT_EXC or imp.get("to_exc") in FLOAT_EXC)
     if mto is None:
         det = "driver gave no Quantity-target result"
+    elif kind == "reciprocal" and not isinstance(x, list) and xs[0] == 0:
+        ctx.count("unjudged.reciprocal-of-zero")      # a scalar 1/0 raises in Python, is inf in IEEE: not prescribed
     elif float_exc:
         ctx.count("unjudged.float-exception")   # e.g. 1/(x*f) with x*f underflowing to 0
     elif has_value and m_ok != i_ok:
@@ -494,7 +569,7 @@ def judge(ctx, cat, case, imp, res, report=True):
         if kind == "reciprocal" and not mask:
             ctx.count("unjudged.reciprocal-of-zero")
         elif kind == "reciprocal" and not isinstance(x, list) and xs[0] == 0:
-            ctx.count("unjudged.reciprocal-of-zero")
+            pass
         elif float_exc:
             pass
         elif (has_value and not i_ok) or not imp["to"]:
@@ -569,7 +644,7 @@ def run_cases(ctx, cat, cases):
     res = ctx.driver.ask_many(reqs)
     for c, r in zip(usable, res):
         ctx.count("stream." + c["stream"])
-        canon = "%s|%s|%r|%s|%r" % (c.get("src") or c["eu"], c["ev"], c["x"], c.get("form"), c.get("tm"))
+        canon = "%s|%s|%r|%s|%r|%s" % (c.get("src") or c["eu"], c["ev"], c["x"], c.get("form"), c.get("tm"), c.get("container"))
         ctx.case(canon, c["eu"] != c["ev"], {"x": c["x"], "u": c["eu"], "v": c["ev"]} if c["stream"] != "corpus" else None)
         if "ok" not in r:
             ctx.disagreement(c["stream"], {"x": c["x"], "u": c["eu"], "v": c["ev"]}, "driver error %s" % r)
@@ -584,6 +659,7 @@ def run_cases(ctx, cat, cases):
                                  "Quantity()/target construction failed: %s" % imp["init"])
             continue
         ctx.count("form." + c.get("form", "str"))
+        ctx.count("container." + c.get("container", "python"))
         ctx.count("spec." + r["ok"]["spec"]["kind"])
         ctx.count("value." + ("array" if isinstance(c["x"], list) else "scalar"))
         found = judge(ctx, cat, c, imp, r["ok"])
@@ -903,6 +979,53 @@ def env_history_stream(ctx, count):
                     prev_dims[s_] = cat.dimkey(s_)
             finally:
                 env.close()
+        # a REFUSED environment (its symbol collides with a prefixed table symbol) must leave the tables as they were:
+        # conversions of that prefixed unit, and of others, are judged again against the original tables
+        pre_syms = [t for t in base_cat.linear if len(base_cat.units[t][2]) > 5 and not t.startswith(("#", "["))]
+        t = rng.choice(pre_syms)
+        p_ = rng.choice(base_cat.units[t][2])
+        clash = p_ + t
+        if clash in base_cat.units:
+            continue
+        defs = {"uzz": ("dict", 7.0, [1, 0, 0, 0, 0, 0, 0, 0], False),
+                clash: ("dict", rng.choice([2.0, 1e5, 1e-9]), [n if d == 1 else (n, d) for n, d in base_cat.units[rng.choice(base_cat.linear)][1]], False)}
+        ctx.count("env-history.refused-registrations")
+        try:
+            env = UnitEnvironment(make_env_units(defs))
+            env.close()                      # accepted after all: nothing to re-judge
+            continue
+        except Exception:
+            pass
+        groups = base_cat.by_dimension(base_cat.linear)
+        cases = []
+        for _ in range(6):
+            w = rng.choice(groups[base_cat.dimkey(t)])
+            for iu, iv in (([(p_, t, (1, 1))], [(pick_prefix(base_cat, rng, w), w, (1, 1))]),
+                           ([(pick_prefix(base_cat, rng, w), w, (1, 1))], [(p_, t, (1, 1))])):
+                c = make_case(base_cat, rng, "after-refused-env", pick_value(rng), iu, iv)
+                c["env"] = {"refused": {k: list(v) for k, v in defs.items()}}
+                cases.append(c)
+        for _ in range(6):
+            iu = random_items(base_cat, rng, 2)
+            iv = expansion(base_cat, rng, base_cat.dims_of_items(iu))
+            if iv:
+                cases.append(make_case(base_cat, rng, "after-refused-env", pick_value(rng), iu, iv, rng))
+        run_cases(ctx, base_cat, cases)
+
+
+def tables_still_as_generated(ctx):
+    """the unit tables the run started with (and Generated/C04Tables.lean was written from) must still be the tables
+    at its end: nothing a unit environment registered may be left"""
+    try:
+        now = U.render_c04_tables(U.extract_c04_tables())
+    except Exception as e:
+        ctx.notes.append("unit tables could not be re-extracted at the end of the run: %r" % (e,))
+        return
+    if (U.GEN / "C04Tables.lean").read_text() != now:
+        from scinumtools.units import settings
+        ctx.violation("tables:changed-during-run",
+                      "UNIT_STANDARD / UNIT_PREFIXES at the end of the run differ from the tables at its start "
+                      "(symbols now: …%s)" % list(settings.UNIT_STANDARD.keys())[-4:], {"stream": "tables"})
 
 
 # ------------------------------------------------------------------ histories on one Quantity object
@@ -919,7 +1042,21 @@ def gen_quantity_history(cat, rng, groups):
         t = rng.choice(g)
         iv = [(pick_prefix(cat, rng, t), t, (1, 1))]
         r = rng.random()
-        if r < 0.18:      # augmented assignment is the binary operation: q *= k, q /= k, q += other, q -= other
+        if r < 0.1:
+            # a refused conversion whose multi-atom target fails on a later atom (unknown symbol in 2nd / 3rd position),
+            # through to() or value(): the quantity stays as it was and whatever follows is unaffected
+            good = [(pick_prefix(cat, rng, w), w, rng.choice([(1, 1), (-1, 1)])) for w in rng.sample(g, min(2, len(g)))]
+            expr = "*".join(U.render_items([i]) for i in good[:rng.randint(1, 2)]) + rng.choice(["*", "/"]) + rng.choice(UNKNOWN_TOKENS)
+            if rng.random() < 0.4:
+                expr += "*" + U.render_items([good[0]])
+            ops.append({"op": rng.choice(["bad_to", "bad_to", "bad_value"]), "expr": expr, "iv": None, "form": None, "tm": None})
+            continue
+        if r < 0.17:      # … including a conversion of ANOTHER quantity
+            a, b = rng.choice(g), rng.choice(g)
+            ops.append({"op": "other", "x2": rng.choice([5.0, 2.0, -0.25, 1e3]), "iu2": [(pick_prefix(cat, rng, a), a, (1, 1))],
+                        "iv": [(pick_prefix(cat, rng, b), b, (1, 1))], "form": None, "tm": None})
+            continue
+        if r < 0.3:      # augmented assignment is the binary operation: q *= k, q /= k, q += other, q -= other
             k = rng.choice(["imul", "idiv", "iadd", "isub"])
             if k in ("imul", "idiv"):
                 ops.append({"op": k, "k": rng.choice([3.0, 0.5, -2.0, 10.0]), "iv": None, "form": None, "tm": None})
@@ -929,6 +1066,9 @@ def gen_quantity_history(cat, rng, groups):
             ops.append({"op": "value", "iv": iv, "form": rng.choice(["str", "str", "baseunits", "dict"]), "tm": None})
         elif r < 0.85:
             form = rng.choice(FORMS)
+            if form in DIM_FORMS:
+                iv = canonical_expansion(cat, cat.dims_of_items(iv)) or iv
+                form = form if iv and all(p is None for p, _, _ in iv) and all(t in cat.base for _, t, _ in iv) else "str"
             tm = rng.choice(TARGET_MAGS) if form in ("qm", "scaled-unit") else (1.0 if form in QUANTITY_FORMS else None)
             ops.append({"op": "to", "iv": iv, "form": form, "tm": tm})
         else:
@@ -947,6 +1087,16 @@ def run_quantity_history(cat, x, iu, ops):
             try:
                 if o["op"] == "read":
                     out.append((U.as_list(q.value()), q.units()))
+                    continue
+                if o["op"] in ("bad_to", "bad_value"):
+                    try:
+                        q.to(o["expr"]) if o["op"] == "bad_to" else q.value(o["expr"])
+                        out.append(("noraise", None))
+                    except Exception:
+                        out.append((U.as_list(q.value()), q.units()))
+                    continue
+                if o["op"] == "other":
+                    out.append((U.as_list(Quantity(o["x2"], U.render_items(o["iu2"])).value(U.render_items(o["iv"]))), None))
                     continue
                 if o["op"] in ("imul", "idiv", "iadd", "isub"):
                     if o["op"] == "imul":
@@ -970,7 +1120,32 @@ def run_quantity_history(cat, x, iu, ops):
     return out
 
 
-def quantity_history_stream(ctx, cat, count):
+def near_equal_stream(ctx, cat):
+    """every pair of same-dimension units whose factors are nearly but not exactly equal (relative difference below
+    1e-4): the conversion still multiplies by factor(u)/factor(v); also as intermediate unit of a path"""
+    rng = ctx.rng
+    pairs = U.near_equal_pairs(cat)
+    groups = cat.by_dimension(cat.linear)
+    cases, hists = [], []
+    for a, b, r in pairs:
+        for u, v in ((a, b), (b, a)):
+            for x in (1.0, rng.choice([3.0, -7.25, 6.02e23, [1.0, 2.0, 4.0]])):
+                cases.append(make_case(cat, rng, "near-equal", x, u, v, form=rng.choice(["str", "str", "baseunits", "q1", "unitcall"])))
+            g = groups.get(cat.dims_of_items(u))
+            if g:
+                w = rng.choice(g)
+                hists.append((rng.choice([2.0, 5.5, [1.0, -3.0]]), u,
+                              [{"op": "to", "iv": v, "form": "str", "tm": None},
+                               {"op": "to", "iv": [(pick_prefix(cat, rng, w), w, (1, 1))], "form": "str", "tm": None},
+                               {"op": "read", "iv": None, "form": None, "tm": None}]))
+    for c in cases:
+        c.pop("container", None)
+    ctx.count("near-equal.pairs", len(pairs))
+    run_cases(ctx, cat, cases)
+    return hists
+
+
+def quantity_history_stream(ctx, cat, count, extra=()):
     from harness.util import shrink_list
     rng = ctx.rng
     groups = [g for g in cat.by_dimension(cat.linear).values() if len(g) >= 2]
@@ -979,11 +1154,13 @@ def quantity_history_stream(ctx, cat, count):
               {"op": "value", "iv": [("c", "m", (1, 1))], "form": "str", "tm": None},
               {"op": "read", "iv": None, "form": None, "tm": None},
               {"op": "to", "iv": [("m", "m", (1, 1))], "form": "unitattr", "tm": 1.0}])]
+    hist += list(extra)
     for _ in range(count):
         hist.append(gen_quantity_history(cat, rng, groups))
     hist = [(x, iu, ops) for x, iu, ops in hist
             if U.reads_as_intended(cat, iu)
-            and all(o.get("iv") is None or U.reads_as_intended(cat, o["iv"]) for o in ops)]
+            and all((o.get("iv") is None or U.reads_as_intended(cat, o["iv"])) and
+                    (o.get("iu2") is None or U.reads_as_intended(cat, o["iu2"])) for o in ops)]
     reqs, atols = [], []
     for x, iu, ops in hist:
         amp = 0.0
@@ -1007,9 +1184,13 @@ def quantity_history_stream(ctx, cat, count):
                 base = upd(base, lambda v: v / o["tm"])
             if k == "to":
                 cur = o["iv"]
+            if k == "other":
+                reqs.append({"k": "conv", "x": U.mag_req(o["x2"]), "u": cat.req_items(o["iu2"]), "v": cat.req_items(o["iv"])})
+                atols.append(0.0)
+                continue
             tgt = o["iv"] if k in ("value", "to") else cur
             reqs.append({"k": "conv", "x": U.mag_req(base), "u": cat.req_items(iu), "v": cat.req_items(tgt)})
-            atols.append(1e-12 * amp * abs(float(f0 / cat.factor_exact(tgt))))
+            atols.append(1e-12 * amp * abs(float(f0) / U.factor_float(cat, tgt)))
             if k in ("imul", "idiv"):
                 amp = amp * abs(o["k"]) if k == "imul" else amp / abs(o["k"])
             elif k == "to" and o["tm"]:
@@ -1020,6 +1201,8 @@ def quantity_history_stream(ctx, cat, count):
     def first_failure(x, iu, ops, exps):
         got = run_quantity_history(cat, x, iu, ops)
         for i, (o, g, (want, wunits, atol)) in enumerate(zip(ops, got, exps)):
+            if g[0] == "noraise":
+                continue             # whether an unknown symbol is rejected is C03's; only its after-effects are judged here
             if g[0] == "err" and g[1].startswith(FLOAT_EXC):
                 return None          # float-range effect: the rest of this history is not judged
             if g[0] == "err":
@@ -1046,13 +1229,13 @@ def quantity_history_stream(ctx, cat, count):
             sval = U.as_list(U.mag_back(r["ok"]["spec"]["val"]))
             if o["op"] == "to":
                 cur = o["iv"]
-            exps.append((sval, None if o["op"] == "value" else target_expression(U.render_items(cur)), next(atols)))
+            exps.append((sval, None if o["op"] in ("value", "other") else target_expression(U.render_items(cur)), next(atols)))
         f = first_failure(x, iu, ops, exps)
         if f is None:
             continue
         pairs = list(zip(ops, exps))[:f[0] + 1]
         ops_small, why = [c[0] for c in pairs], f[1]
-        if all(o["op"] in ("value", "read") for o in ops_small[:-1]) and len(ctx.violations) < 3:
+        if all(o["op"] in ("value", "read", "bad_to", "bad_value", "other") for o in ops_small[:-1]) and len(ctx.violations) < 3:
             # only non-mutating steps before the failing one: they can be dropped without changing what is expected
             def fails(cand):
                 if cand[-1] is not pairs[-1]:
@@ -1066,7 +1249,7 @@ def quantity_history_stream(ctx, cat, count):
         last = ops_small[-1]
         ctx.violation("quantity-history:%s" % last["op"],
                       "Quantity(%r, %r) after %s: %s(%s) %s" %
-                      (x, U.render_items(iu), [(o["op"], U.render_items(o["iv"]) if o["iv"] else o.get("k"), o["form"] or o.get("y")) for o in ops_small[:-1]],
+                      (x, U.render_items(iu), [(o["op"], U.render_items(o["iv"]) if o["iv"] else (o.get("k") or o.get("expr")), o["form"] or o.get("y")) for o in ops_small[:-1]],
                        last["op"], U.render_items(last["iv"]) if last["iv"] else "", why),
                       {"stream": "quantity-history", "x": x, "iu": iu, "ops": ops_small})
 
@@ -1261,9 +1444,11 @@ def correspond(ctx: Ctx, scale=1):
     result_number_functions(ctx, cat, rn)
     trig_stream(ctx, cat, (1500 if ctx.tier == "thorough" else 200) * scale)
     env_history_stream(ctx, (150 if ctx.tier == "thorough" else 15) * scale)
-    quantity_history_stream(ctx, cat, (2000 if ctx.tier == "thorough" else 250) * scale)
+    near_hists = near_equal_stream(ctx, cat)
+    quantity_history_stream(ctx, cat, (2000 if ctx.tier == "thorough" else 250) * scale, near_hists)
     unit_history_stream(ctx, cat, (1500 if ctx.tier == "thorough" else 150) * scale)
     doc_examples(ctx)
+    tables_still_as_generated(ctx)
     ctx.extra["exhaustive_part"] = ("all ordered same-dimension pairs of table symbols and every admissible prefix of "
                                     "every symbol" if ctx.tier == "thorough" else "sampled pairs")
 
